@@ -257,8 +257,28 @@ fn cmd_conn_sweep(a: &HashMap<String, String>) -> i32 {
     0
 }
 
+/// A tracing subscriber that enables every level and discards everything: the library is exercised the way it runs under
+/// RUST_LOG=trace (field expressions of its log statements are evaluated), which must not change what it does.
+struct Sink;
+impl tracing::Subscriber for Sink {
+    fn enabled(&self, _m: &tracing::Metadata<'_>) -> bool {
+        true
+    }
+    fn new_span(&self, _s: &tracing::span::Attributes<'_>) -> tracing::span::Id {
+        tracing::span::Id::from_u64(1)
+    }
+    fn record(&self, _s: &tracing::span::Id, _v: &tracing::span::Record<'_>) {}
+    fn record_follows_from(&self, _s: &tracing::span::Id, _f: &tracing::span::Id) {}
+    fn event(&self, _e: &tracing::Event<'_>) {}
+    fn enter(&self, _s: &tracing::span::Id) {}
+    fn exit(&self, _s: &tracing::span::Id) {}
+}
+
 fn main() {
     frames::quiet_panics();
+    if std::env::var("LFSVERIF_NO_TRACING").is_err() {
+        let _ = tracing::subscriber::set_global_default(Sink);
+    }
     let args: Vec<String> = std::env::args().collect();
     let cmd = args.get(1).map(|s| s.as_str()).unwrap_or("");
     let a = arg_map(&args[2.min(args.len())..]);
